@@ -89,6 +89,10 @@ def accepted_map(spec):
     return acc
 
 
+def plain_steps_all(spec):
+    return {s["name"] for s in spec["steps"] if s.get("handler") is None}
+
+
 def sig_of_trace(tr):
     return h(tr.tick_signature())
 
@@ -255,6 +259,17 @@ def c02(tr, acc, case):
         for et, n in expected_unhandled.items():
             if seen.get(et, 0) != n:
                 acc.violation({"mech": "unhandled_event_stream_count"}, f"{n} unaccepted {et} processed but {seen.get(et, 0)} UnhandledEvent on the stream", case)
+    # black box: a retry (retry_number > 0) only ever re-enters the step that failed on that very event
+    failed_before = set()
+    for r in tr.rec.log:
+        if r["k"] == "exit" and str(r.get("how", "")).startswith("raise:"):
+            failed_before.add((r["step"], r["uid"]))
+        elif r["k"] == "enter" and (r.get("att") or 0) > 0 and r["step"] in plain_steps_all(spec):
+            acc.hit("retry_entry_eval")
+            if (r["step"], r["uid"]) not in failed_before:
+                acc.violation({"mech": "retry_delivered_to_step_that_did_not_fail"},
+                              f"step {r['step']} was entered with retry_number={r['att']} for event uid={r['uid']} although it never failed on that event "
+                              f"(another step's retry reached it)", case)
     # black box: a wait can only be answered by an event the run processed after that wait was first asked for
     first_call, tick_n = {}, {}
     for t in tr.ticks:
@@ -614,6 +629,17 @@ def c05(tr, acc, case):
         acc.hit("queued_items_case")
     for uid, bodies in groups.items():
         _c05_one(tr, acc, case, sp, pol, uid, bodies)
+    # a sibling step without a retry policy that accepts the same events runs each of them exactly once (it never fails), whatever
+    # the retrying step does with its own budget
+    sib = defaultdict(list)
+    for b in tr.bodies():
+        if b["step"] == "observer":
+            sib[b["uid"]].append(b)
+    for uid, bodies in sib.items():
+        acc.hit("sibling_execution_count_eval")
+        if len(bodies) != 1 or bodies[0]["att"] != 0:
+            acc.violation({"mech": "execution_count_mismatch", "direction": "more", "step": "sibling_without_policy"},
+                          f"step observer (no retry policy, never fails) ran {len(bodies)} times for event uid={uid} with retry numbers {[b['att'] for b in bodies]}", case)
 
 
 def _c05_one(tr, acc, case, sp, pol, uid, bodies):
